@@ -454,7 +454,7 @@ func runC08(t *testing.T, r *kit.Run) {
 	if r.Tape.Chance(1, 5) {
 		c08max = 30 // enough blocks to fill every queue of a 1-decoder pipeline behind a stalled consumer
 	}
-	f := pbfwire.Gen(r.Tape, pbfwire.Opts{MinBlocks: 1, MaxBlocks: c08max, MaxElems: 8, Procs: 2, AlwaysHeader: true, PlainNodes: r.Tape.Chance(1, 3)})
+	f := pbfwire.Gen(r.Tape, pbfwire.Opts{MinBlocks: 1, MaxBlocks: c08max, MaxElems: 8, Procs: 2, HeaderlessOneIn: 4, PlainNodes: r.Tape.Chance(1, 3)})
 	wl := kit.HashStr(4, string(f.Data))
 	r.Out.Workload = wl
 	ref := runScan(t, scanCfg{data: f.Data, procs: 1, cut: -1, errAt: -1, sched: kit.SchedCfg{Seed: 1, Flat: true}, maxObj: len(f.Objects()) + 20})
